@@ -379,6 +379,25 @@ type splitter struct {
 	o                 model.GenOpts
 }
 
+// enumTwin: for a union leaf holding a member of one enumeration, the member of another enumeration of
+// the same union that has the same Go value (two values that differ in type only).
+func enumTwin(f *model.FieldInfo, v model.Val) (model.Val, bool) {
+	if f.Type == nil || len(f.Type.Members) < 2 || v.K != model.KEnum {
+		return model.Val{}, false
+	}
+	for _, m := range f.Type.Members {
+		if m.GoEnum == nil || m.GoEnum == v.ET {
+			continue
+		}
+		for _, em := range m.Enum {
+			if em.GoVal == v.I {
+				return model.Val{K: model.KEnum, I: em.GoVal, S: em.Name, Mod: em.Mod, ET: m.GoEnum, Ident: m.Ident}, true
+			}
+		}
+	}
+	return model.Val{}, false
+}
+
 // fw scales the weight of an overlapping role of a list of kind k.
 func (s *splitter) fw(k model.FKind, x int) int {
 	if s.hasFocus && s.focus == k {
@@ -475,6 +494,10 @@ func (s *splitter) node(m *model.Node, keyLeaves map[string]bool, depth int) (*m
 			if s.rare && (isBinLeaf(f) || f.Type.VKind() == model.KEmpty) {
 				wConf = 15 // the conflict boundary of binary leaves is a class of its own
 			}
+			twin, hasTwin := enumTwin(f, v)
+			if hasTwin && wConf > 0 {
+				wConf = 15 // a member of ANOTHER enumeration of the union with the same Go value: a class of its own
+			}
 			switch s.pick("leaf", 30, 30, s.bw(25), wConf) {
 			case 0:
 				a.Leaf[name] = cloneVal(v)
@@ -485,6 +508,9 @@ func (s *splitter) node(m *model.Node, keyLeaves map[string]bool, depth int) (*m
 			case 3:
 				a.Leaf[name] = cloneVal(v)
 				nv := v
+				if hasTwin && rapid.Bool().Draw(s.rt, "enumtwin") {
+					nv = twin
+				}
 				for tries := 0; tries < 6 && nv.Canon() == v.Canon(); tries++ {
 					nv = model.GenVal(s.rt, s.v, f.Type, s.o, "conflict")
 				}
